@@ -81,9 +81,9 @@ func runCLIMode(ctx context.Context, c *Case, m Mode, hcl bool, root string) (re
 			// diagnostic: which tables differ between the SQL desired state and its HCL export re-read
 			if c0, err := sqlclient.Open(ctx, "sqlite://"+path+"?_fk="+fk); err == nil {
 				if cur0, err := c0.InspectSchema(ctx, "", nil); err == nil {
-					d1, _ := c0.SchemaDiff(cur0, des)
+					d1, _ := c0.SchemaDiff(cur0, des, schema.DiffNormalized())
 					cur1, _ := c0.InspectSchema(ctx, "", nil)
-					d2, _ := c0.SchemaDiff(cur1, &s2)
+					d2, _ := c0.SchemaDiff(cur1, &s2, schema.DiffNormalized())
 					a, b2 := changedTables(d1), changedTables(d2)
 					if fmt.Sprint(sortedKeys(a)) != fmt.Sprint(sortedKeys(b2)) {
 						fmt.Fprintf(os.Stderr, "HCLDIFF %s sql=%v hcl=%v\n%s\n---hcl---\n%s\n", c.ID, sortedKeys(a), sortedKeys(b2), caseText(c), b)
@@ -111,7 +111,8 @@ func runCLIMode(ctx context.Context, c *Case, m Mode, hcl bool, root string) (re
 		res.Skip = "inspect: " + err.Error()
 		return
 	}
-	changes, err := client.SchemaDiff(cur, des)
+	// the CLI diffs with schema.DiffNormalized() (cmdapi.diffOptions)
+	changes, err := client.SchemaDiff(cur, des, schema.DiffNormalized())
 	if err != nil {
 		client.Close()
 		res.Skip = "diff-error: " + err.Error()
